@@ -3,6 +3,7 @@ package main
 import (
 	"fmt"
 	"math"
+	"strings"
 
 	"verifmc/hx"
 	"verifmc/ref"
@@ -189,7 +190,11 @@ func checkC11(c *hx.Checker) {
 				if !castGate[from] {
 					dom = hx.DRefuse // source type not accepted by the operator's own gate: computed correctly or refused
 				}
-				jobs = append(jobs, newJob("Cast", []hx.Attr{hx.AInt("to", int64(hx.OnnxDT(to)))}, []*ref.T{x}, []*ref.T{e}, nil, dom, hx.Bits, route, nil, fmt.Sprintf("%s->%s/%s", from, to, desc), "to="+to.String()))
+				extra := []string{"to=" + to.String()}
+				if strings.HasPrefix(desc, "large") {
+					extra = append(extra, "large")
+				}
+				jobs = append(jobs, newJob("Cast", []hx.Attr{hx.AInt("to", int64(hx.OnnxDT(to)))}, []*ref.T{x}, []*ref.T{e}, nil, dom, hx.Bits, route, nil, fmt.Sprintf("%s->%s/%s", from, to, desc), extra...))
 			}
 			mk([]int{len(in)}, in, out, "op", "alphabet")
 			mk([]int{2, 2}, in[:4], out[:4], "op", "2x2")
@@ -197,7 +202,7 @@ func checkC11(c *hx.Checker) {
 			mk([]int{2, 2}, in[:4], out[:4], "model", "2x2")
 			mk([]int{3}, in[len(in)-3:], out[len(out)-3:], "model", "tail3")
 			// larger tensors with odd element counts (block-splitting kernels): the alphabet repeated cyclically
-			for _, n := range []int{4099, 32771, 65539, 4096, 65536} {
+			for _, n := range []int{2049, 4099, 32771, 65539, 4096, 65536} {
 				iv, ov := make([]uint64, n), make([]uint64, n)
 				for k := range iv {
 					iv[k], ov[k] = in[(k*7+1)%len(in)], out[(k*7+1)%len(in)]
